@@ -85,6 +85,8 @@ def run_step(b: core.Built, op: dict, rec_id: int, src: core.Built | None = None
         rec["post"] = proj["st"]
         rec["obs"] = proj["obs"]
         rec["obs"].update(lookups(b, proj["st"], maxd))
+        # an explicit node_id given to this call: found afterwards iff the call was carried out
+        rec["obs"]["new_nid"] = [] if b.last_nid is None else [0 if b.tree.find_first(node_id=b.last_nid) is None else 1]
         rec["ret"] = core.ret_id(b, r) if status == "ok" else 0
     except core.Unprojectable as e:
         rec["bad"] = str(e)
